@@ -21,7 +21,7 @@ REQUIRED_THEOREMS = [
 ]
 TRUSTED_EXTRA = [
     "M1 granularity: completion callbacks are atomic and happen at hook points of the caller (configure, compute_batch_size, sleep, consumer "
-    "pauses); interleavings inside a callback or between two bytecodes of the caller are not in the model",
+    "pauses, inside backend.abort_everything, between two calls and after the last one); interleavings inside a callback or between two bytecodes of the caller are not in the model",
     "modelled, not verified: the backend contract (each submitted batch executed at most once, its callback invoked at most once), "
     "threading.RLock, itertools.islice, queue.Queue, collections.deque, pickling of batches to worker processes",
 ]
